@@ -688,7 +688,10 @@ func (hfh *HttpForwarderHandlerV2) constructPost(ctx context.Context, logger log
 
 func (hfh *HttpForwarderHandlerV2) DispatchEvent(ctx context.Context, e *gostatsd.Event) {
 	hfh.eventWg.Add(1)
-	go hfh.dispatchEvent(ctx, e)
+	// The event is sent after this function has returned. For an event received on the http ingestion
+	// endpoint ctx is the request context, which is cancelled at that moment and would abort the post;
+	// like the metric posts, the delivery is bounded by max-request-elapsed-time instead.
+	go hfh.dispatchEvent(context.WithoutCancel(ctx), e)
 }
 
 func (hfh *HttpForwarderHandlerV2) dispatchEvent(ctx context.Context, e *gostatsd.Event) {
